@@ -8,7 +8,7 @@ import (
 	"math/big"
 	"strings"
 
-	"golang.org/x/tools/go/ssa"
+	"ikeverif/checker/xt/ssa"
 )
 
 // piTimesPow2 returns floor(pi * 2^k) computed with Machin's formula on big integers
